@@ -4,53 +4,117 @@ C04 proofs — P1 (`Reach.listed`) across one access of the repaired protocol, a
 import TbbVerif.Proofs.C04.ReachI
 
 namespace TbbVerif.C04
-variable {reg : List Nat} {s : St} {t : Nat}
+variable {r : List RF} {reg : List Nat} {s : St} {t : Nat}
+
+theorem eff_le (hR : Reach reg s) (L : Nat) : s.eff L ≤ s.G := by
+  have h1 := hR.epochLe L
+  have h2 := hR.joinedLe L
+  unfold St.eff
+  split <;> omega
 
 theorem syncing_eq {pc : Pc} {i : Nat} (h : pc.syncing = some i) : ∃ src g, pc = .cSync src i g := by
   cases pc <;> simp [Pc.syncing] at h
   rename_i src i' g
   exact ⟨src, g, by rw [h]⟩
 
-/-- "cancelled, or its binder will copy again" survives a step, unless the binder has just learnt that nothing that
-has passed is above the context -/
-theorem covered_step (hS : Struct reg s) (hR : Reach reg s) {x : Nat}
-    (hold : s.can x = true ∨ ∃ w, (s.pc w).coverOf s.G = some x)
-    (hnone : (∀ a, PassedUpTo s.skip s.srcOf s.G a → ¬ Anc s.par x a) → False) :
-    (exec C reg s t).can x = true ∨ ∃ w, ((exec C reg s t).pc w).coverOf (exec C reg s t).G = some x := by
+/-- "`Vf`, or its binder will copy again" survives a step; when the binder has just re-read its parent's flag, what it
+learnt is the `Vf` fact itself -/
+theorem covered_step (hS : Struct reg s) (hR : Reach reg s) {x a m : Nat} (hm : m ≤ s.clk)
+    (hold : Vf s.par s.can s.rst s.oc m a x ∨ ∃ w, (s.pc w).coverOf s.G = some x)
+    (hlearn : Learnt s x → Vf s.par s.can s.rst s.oc m a x) :
+    Vf (exec (C r) reg s t).par (exec (C r) reg s t).can (exec (C r) reg s t).rst (exec (C r) reg s t).oc m a x ∨
+      ∃ w, ((exec (C r) reg s t).pc w).coverOf (exec (C r) reg s t).G = some x := by
   rcases hold with hc | ⟨w, hw⟩
-  · exact Or.inl (can_mono hR hc)
+  · exact Or.inl (vf_mono hS hR hm hc)
   · by_cases e : w = t
     · subst e
-      rcases cover_self hS hR hw with h | h | h
+      rcases cover_self (r := r) hS hR hw with h | h | h
       · exact Or.inr ⟨w, h⟩
-      · exact Or.inl h
-      · exact (hnone h).elim
+      · exact Or.inl (Or.inl h)
+      · exact Or.inl (vf_mono hS hR hm (hlearn h))
     · exact Or.inr ⟨w, cover_other e hw⟩
 
-theorem listed_exec (hS : Struct reg s) (hR : Reach reg s) :
-    ∀ L x a, x ∈ (exec C reg s t).items L →
-      PassedUpTo (exec C reg s t).skip (exec C reg s t).srcOf ((exec C reg s t).epoch L) a →
-      Anc (exec C reg s t).par x a →
-      (exec C reg s t).can x = true ∨ ∃ t', ((exec C reg s t).pc t').coverOf (exec C reg s t).G = some x := by
-  intro L x a h1 h2 h3
+theorem listed_exec (hS : Struct reg s) (hH : Hint s) (hR : Reach reg s) :
+    ∀ L x a m, x ∈ (exec (C r) reg s t).items L →
+      Passed (exec (C r) reg s t).skipSt (exec (C r) reg s t).srcOf (exec (C r) reg s t).pst
+        ((exec (C r) reg s t).eff L) a m →
+      Cur (exec (C r) reg s t).wst (exec (C r) reg s t).rst a m →
+      Anc (exec (C r) reg s t).par x a →
+      Vf (exec (C r) reg s t).par (exec (C r) reg s t).can (exec (C r) reg s t).rst (exec (C r) reg s t).oc m a x ∨
+        ∃ t', ((exec (C r) reg s t).pc t').coverOf (exec (C r) reg s t).G = some x := by
+  intro L x a m h1 h2 h3 h4
+  -- a cancellation that wins in this very step has not passed anything yet
+  have hcur : Cur s.wst s.rst a m := by
+    rcases cur_step_back hR h3 with h | h
+    · exact h
+    · exfalso
+      have hle : m ≤ (exec (C r) reg s t).clk → False := by
+        intro _
+        rcases passed_step_back hR h2 with hp | hm | ⟨i, _, _, hp⟩ | ⟨_, hg⟩
+        · have := passed_le_s hR hp; omega
+        · -- the hint-skip step does not tick the clock: the stamp it records is in the past
+          have hw := cur_wst h3
+          rcases h2 with hs | ⟨n, _, _, _, hn⟩
+          · have : (exec (C r) reg s t).skipSt a ≤ s.clk := by
+              have g0 := hR.skipLe
+              have g1 := hR.wstLe
+              exec_cases_C
+              all_goals (try simp [upd_apply])
+              all_goals grind
+            omega
+          · have : (exec (C r) reg s t).pst n ≤ s.clk := by
+              have g0 := hR.pstLe
+              have g1 := hR.wstLe
+              exec_cases_C
+              all_goals (try simp [upd_apply])
+              all_goals grind
+            omega
+        · have := passed_le_s hR hp; omega
+        · -- registration does not tick the clock either
+          have hw := cur_wst h3
+          have hb : (exec (C r) reg s t).wst a ≤ s.clk := by
+            have g0 := hR.wstLe
+            revert hg
+            exec_cases_C
+            all_goals (intro hg; try simp [upd_apply] at hg ⊢)
+            all_goals grind
+          omega
+      exact hle (by
+        have := cur_wst h3
+        have g1 := hR.wstLe
+        subst h
+        have hb : (exec (C r) reg s t).wst a ≤ (exec (C r) reg s t).clk := by
+          have g0 := hR.wstLe
+          exec_cases_C
+          all_goals (try simp [upd_apply])
+          all_goals grind
+        omega)
+  have hm : m ≤ s.clk := cur_le_s hR hcur
   rcases items_step h1 with hx | ⟨hLt, hpush, hfree⟩
   · have hne : s.cst x ≠ .created := fun e => (hS.itemsOk L x hx).2.2 (hS.createdPar x e)
-    have ha := anc_step_back hS hne h3
-    rcases passed_step_back hR h2 with hp | hm | ⟨i, hs, hL, hp⟩
-    · exact covered_step hS hR (hR.listed L x a hx hp ha) (fun hn => hn a (passed_mono (hR.epochLe L) hp) ha)
-    · exact (no_anc_of_hint_clear_reg hS hR hx hm ha).elim
+    have ha := anc_step_back hS hne h4
+    rcases passed_step_back hR h2 with hp | hmhc | ⟨i, hs, hL, hp⟩ | ⟨hLt, hg⟩
+    · exact covered_step hS hR hm (hR.listed L x a m hx hp hcur ha)
+        (fun hn => hn a m (passed_mono (eff_le hR L) hp) hcur ha)
+    · exact (no_anc_of_hint_clear_reg hS hH hx hmhc ha).elim
     · obtain ⟨src, g, hpc⟩ := syncing_eq hs
-      exact covered_step hS hR (listed_sync hS hR hpc hL hx hp ha) (fun hn => hn a hp ha)
+      exact covered_step hS hR hm (listed_sync hS hR hpc hL hx hp hcur ha) (fun hn => hn a m hp hcur ha)
+    · -- the list of a thread that is registering is empty
+      subst hLt
+      rw [hS.notWasEmpty L (hS.regPc L hg).2.2] at hx
+      cases hx
   · subst hLt
     obtain ⟨p, sn, hpc⟩ := pushing_eq hpush
     have hlocked : s.cst x = .locked := hS.ownsSt L x (by rw [hpc]; rfl)
-    have ha := anc_step_back hS (by rw [hlocked]; simp) h3
-    rcases push_covered hR hpush hfree with h | h
+    have ha := anc_step_back hS (by rw [hlocked]; simp) h4
+    rcases push_covered (r := r) hR hpush hfree with h | h
     · exact Or.inr ⟨L, h⟩
-    · rcases passed_step_back hR h2 with hp | hm | ⟨i, hs, _, _⟩
-      · exact Or.inl (can_mono hR (h a hp ha))
-      · exact (no_anc_of_hint_clear_owner hS hR (by rw [hpc]; rfl) (by rw [hpc]; rfl) hm ha).elim
+    · rcases passed_step_back hR h2 with hp | hmhc | ⟨i, hs, _, _⟩ | ⟨_, hg⟩
+      · exact Or.inl (vf_mono hS hR hm (h a m hp hcur ha))
+      · exact (no_anc_of_hint_clear_owner hS hH (by rw [hpc]; rfl) (by rw [hpc]; rfl) hmhc ha).elim
       · rw [hpc] at hs
         simp [Pc.syncing] at hs
+      · rw [hpc] at hg
+        cases hg
 
 end TbbVerif.C04
